@@ -128,7 +128,9 @@ fn __verif_n_c15_signatures() {
     let tyarg = |p: &Parsed| p.arg.clone();
     for t in &uni {
         let GenericArg::Type(t_id) = &t.arg else { continue };
-        for lf_name in ["dup", "drop", "store_temp", "rename", "into_box", "unbox", "snapshot_take", "array_new", "array_append", "unwrap_non_zero", "nullable_from_box", "null", "match_nullable"] {
+        for lf_name in ["dup", "drop", "store_temp", "rename", "into_box", "unbox", "snapshot_take", "array_new", "array_append", "unwrap_non_zero", "nullable_from_box", "null", "match_nullable",
+            "array_pop_front", "array_pop_front_consume", "array_snapshot_pop_front", "array_snapshot_pop_back", "array_len", "array_get", "box_forward_snapshot",
+            "felt252_dict_new", "felt252_dict_entry_get", "felt252_dict_entry_finalize", "felt252_dict_squash"] {
             let mut p = assemble(&base, &[t], &Target::Libfunc(lf_name.to_string()));
             cases += 1;
             let reg = match registry_autodecl(&mut p) { Ok(r) => r, Err(_) => continue };
@@ -153,7 +155,7 @@ fn __verif_n_c15_signatures() {
             let outs: Vec<Vec<Option<ConcreteTypeLongId>>> = lf.branch_signatures().iter().map(|b| b.vars.iter().map(|v| lid(&v.ty)).collect()).collect();
             let tl = Some(t_info.long_id.clone());
             let w = |g: &str| Some(long(g, vec![tyarg(t)]));
-            let (want_in, want_out): (Vec<Option<ConcreteTypeLongId>>, Vec<Vec<Option<ConcreteTypeLongId>>>) = match lf_name {
+            let want = (|| -> Option<(Vec<Option<ConcreteTypeLongId>>, Vec<Vec<Option<ConcreteTypeLongId>>>)> { Some(match lf_name {
                 "dup" => (vec![tl.clone()], vec![vec![tl.clone(), tl.clone()]]),
                 "drop" => (vec![tl.clone()], vec![vec![]]),
                 "store_temp" | "rename" => (vec![tl.clone()], vec![vec![tl.clone()]]),
@@ -166,8 +168,21 @@ fn __verif_n_c15_signatures() {
                 "nullable_from_box" => (vec![w("Box")], vec![vec![w("Nullable")]]),
                 "null" => (vec![], vec![vec![w("Nullable")]]),
                 "match_nullable" => (vec![w("Nullable")], vec![vec![], vec![w("Box")]]),
-                _ => continue,
-            };
+                // the array / dictionary families: the container always comes back (or is consumed on purpose)
+                "array_pop_front" => (vec![w("Array")], vec![vec![w("Array"), w("Box")], vec![w("Array")]]),
+                "array_pop_front_consume" => (vec![w("Array")], vec![vec![w("Array"), w("Box")], vec![]]),
+                "array_snapshot_pop_front" | "array_snapshot_pop_back" => { let sa = Some(long("Snapshot", vec![GenericArg::Type(id_of(&p, &long("Array", vec![tyarg(t)]))?)])); (vec![sa.clone()], vec![vec![sa.clone(), box_of_snap(&p, t, &t_info)?], vec![sa]]) }
+                "array_len" => { let sa = Some(long("Snapshot", vec![GenericArg::Type(id_of(&p, &long("Array", vec![tyarg(t)]))?)])); (vec![sa], vec![vec![Some(long("u32", vec![]))]]) }
+                "array_get" => { let sa = Some(long("Snapshot", vec![GenericArg::Type(id_of(&p, &long("Array", vec![tyarg(t)]))?)])); let rc = Some(long("RangeCheck", vec![])); (vec![rc.clone(), sa, Some(long("u32", vec![]))], vec![vec![rc.clone(), box_of_snap(&p, t, &t_info)?], vec![rc]]) }
+                // the snapshot of a duplicatable type is the type itself (Box<T> is duplicatable iff T is)
+                "box_forward_snapshot" => { let sb = if t_info.duplicatable { w("Box") } else { Some(long("Snapshot", vec![GenericArg::Type(id_of(&p, &long("Box", vec![tyarg(t)]))?)])) }; (vec![sb], vec![vec![box_of_snap(&p, t, &t_info)?]]) }
+                "felt252_dict_new" => { let sa = Some(long("SegmentArena", vec![])); (vec![sa.clone()], vec![vec![sa, w("Felt252Dict")]]) }
+                "felt252_dict_entry_get" => (vec![w("Felt252Dict"), Some(long("felt252", vec![]))], vec![vec![w("Felt252DictEntry"), tl.clone()]]),
+                "felt252_dict_entry_finalize" => (vec![w("Felt252DictEntry"), tl.clone()], vec![vec![w("Felt252Dict")]]),
+                "felt252_dict_squash" => { let pre = vec![Some(long("RangeCheck", vec![])), Some(long("GasBuiltin", vec![])), Some(long("SegmentArena", vec![]))]; let mut i = pre.clone(); i.push(w("Felt252Dict")); let mut o = pre; o.push(w("SquashedFelt252Dict")); (i, vec![o]) }
+                _ => return None,
+            }) })();
+            let Some((want_in, want_out)) = want else { continue };
             if ins != want_in || outs != want_out {
                 let show = |v: &Vec<Option<ConcreteTypeLongId>>| v.iter().map(|x| x.as_ref().map(|l| l.to_string()).unwrap_or("?".into())).collect::<Vec<_>>().join(", ");
                 if !fails.iter().any(|f| f.0 == format!("{lf_name} signature")) { fails.push((format!("{lf_name} signature"), shown.clone(), format!("`{shown}` has the signature ({}) -> {:?}, the typing rule says ({}) -> {:?}", show(&ins), outs.iter().map(show).collect::<Vec<_>>(), show(&want_in), want_out.iter().map(show).collect::<Vec<_>>()))); }
@@ -208,13 +223,22 @@ fn __verif_n_c15_signatures() {
             }
         }
     } }
-    let bound = format!("{cases} declarations of 18 structural libfuncs over {} member types (pairs for structs and enums), {accepted} accepted", uni.len());
+    let bound = format!("{cases} declarations of 29 structural libfuncs over {} member types (pairs for structs and enums), {accepted} accepted", uni.len());
     for (k, (key, input, why)) in fails.iter().enumerate() {
         println!("VERIF-N id=N/n_c15_type_info/structural_signatures:{} status=fail key=\"{}\" input=\"{}\" detail=\"{}\" bound=\"{bound}\"", k + 1, key.replace('"', "'"), input.replace('"', "'"), why.replace('"', "'"));
     }
     if fails.is_empty() {
         if accepted == 0 { println!("VERIF-N id=N/n_c15_type_info/structural_signatures status=unknown"); } else { println!("VERIF-N id=N/n_c15_type_info/structural_signatures status=ok cases={cases} distinct={accepted} bound=\"{bound}\""); }
     }
+}
+/// The concrete id under which `reg` knows the type with this long id.
+fn id_of(p: &crate::program::Program, l: &crate::program::ConcreteTypeLongId) -> Option<crate::ids::ConcreteTypeId> {
+    p.type_declarations.iter().find(|d| d.long_id == *l).map(|d| d.id.clone())
+}
+/// `Box<snapshot of T>` where the snapshot of a duplicatable T is T itself.
+fn box_of_snap(p: &crate::program::Program, t: &Parsed, t_info: &TypeInfo) -> Option<Option<crate::program::ConcreteTypeLongId>> {
+    let inner = if t_info.duplicatable { t.arg.clone() } else { GenericArg::Type(id_of(p, &crate::program::ConcreteTypeLongId { generic_id: "Snapshot".into(), generic_args: vec![t.arg.clone()] })?) };
+    Some(Some(crate::program::ConcreteTypeLongId { generic_id: "Box".into(), generic_args: vec![inner] }))
 }
 /// The long id declared for the type argument `arg` in `decls`.
 fn long_of(decls: &[crate::program::TypeDeclaration], arg: &GenericArg) -> crate::program::ConcreteTypeLongId {
